@@ -47,6 +47,15 @@ def rand_ill(rng):
             "fi": fi, "bbs": regs, "acyc": False}
 
 
+def many_violations(rng):
+    """12-16 nodes, most of them wrong in some way."""
+    n = rng.randint(12, 16)
+    names = ["v%d" % i for i in range(n)]
+    ty = [rng.choice(["foo", NOTYPE, "input", "0", "buf", "not", "and", "bb_output"]) for _ in names]
+    fi = [sorted(rng.sample(range(1, n + 1), rng.choice([0, 1, 2, 3]))) for _ in names]
+    return {"name": "many", "n": n, "names": names, "ty": ty, "out": [rng.random() < 0.2 for _ in names], "fi": fi, "bbs": [], "acyc": False}
+
+
 def producers(ctx, r):
     """(producer name, thunk) pairs; every thunk returns a circuit built from lint-clean arguments."""
     import circuitgraph as cg
@@ -157,6 +166,8 @@ def cases(ctx):
         yield {"op": "lint", "c": p, "src": "L2"}
     for j in range(1500 if ctx.quick else 30000):
         yield {"op": "lint", "c": rand_ill(ctx.rng("C20ill", j)), "src": "ILL"}
+    for j in range(40 if ctx.quick else 400):
+        yield {"op": "lint", "c": many_violations(ctx.rng("C20many", j)), "src": "MANY"}
     from .. import gen
 
     for j in range(100 if ctx.quick else 1000):
